@@ -559,15 +559,21 @@ def stream_table(ctx, tcases, only=None):
         # python-side oracles
         srt = sorted(n for n, _ in c['draws'])
         if o['names'] != srt or any(o['ids'].get(n) != srt.index(n) for n in srt):
-            ctx.violation('C10/table/numbering', 'the draw variables are not numbered by position in the sorted list of names',
-                          witness(c, path=path), {'names': srt}, {'names': o['names'], 'ids': o['ids']})
+            # the numbering convention (sorted names) is a fact of the model, not of the property: a disagreement, not a violation
+            stt.disagree(case, {'names': srt}, {'names': o['names'], 'ids': o['ids']}, 'numbering is not the position in the sorted names')
         if tb is not None:
+            # property oracle: the column the engine reads for each variable (its drawId) holds the series of its declared type
             tag = {g[0]: g[2] for g in c['gens']}
             ty = dict(c['draws'])
-            exp = [[[tag[ty[n]] * 1024 + ob * 32 + rr for n in srt] for rr in range(c['R'])] for ob in range(len(c['rows']))]
-            if 'int' not in tb or tb['int'] != exp:
-                ctx.violation('C10/table/formula-table', 'the table handed to the engine is not [observation][draw][variable] with each '
-                              'variable\'s column holding the series of its declared type', witness(c, path=path), exp, tb)
+            K = len(srt)
+            okshape = tb.get('shape') == [len(c['rows']), c['R'], K] and 'int' in tb
+            ids_ok = sorted(o['ids'].get(n, -1) for n in srt) == list(range(K))
+            if not okshape or not ids_ok or any(
+                    tb['int'][ob][rr][o['ids'][n]] != tag[ty[n]] * 1024 + ob * 32 + rr
+                    for n in srt for ob in range(len(c['rows'])) for rr in range(c['R'])):
+                ctx.violation('C10/table/formula-table', 'the table handed to the engine is not [observation][draw][variable] with the column '
+                              'of each variable (its drawId) holding the series of its declared type', witness(c, path=path),
+                              {'shape': [len(c['rows']), c['R'], K], 'column of n': 'tag(type n)*1024 + 32*o + r'}, {'ids': o['ids'], 'table': tb})
         cols = list(c['rows'][0].keys())
         ids = coq_list([f'({coq_string(n)}, {cz(i)})' for n, i in o['ids'].items()])
         tbl = f'(Some {coq_tensor(tb["int"])})' if tb is not None and 'int' in tb else 'None'
